@@ -161,7 +161,14 @@ def rule_tpl_hyg(ctx):
         decl = set()
         for t in ts:
             declared_names(t.ir, decl)
-        # names produced by format_ident! in the same file are generator-chosen locals
+        # names produced by format_ident! / Ident::new with a constant name in the same file are generator-chosen
+        # locals (binders handed to `matcher` and the like)
+        for g_ in A.functions(ctx.files[rel]):
+            if g_.block is None:
+                continue
+            for _x, d_ in A.ident_ctors(g_.block):
+                if "{" not in d_["pattern"] and re.fullmatch(r"[a-z_][a-z0-9_]*", d_["pattern"]):
+                    decl.add(d_["pattern"])
         for t in ts:
             for kind_, name, node in free_names(t.ir):
                 construct = f"{rel}::{t.fn.qual}:{name}{'!' if kind_ == 'macro' else ''}"
